@@ -1,6 +1,7 @@
 package base
 
 import (
+	vkit "github.com/q191201771/lal/pkg/zzvkit"
 	vrt "github.com/q191201771/lal/pkg/zzvrt"
 )
 
@@ -93,6 +94,34 @@ func VerifC11WsHeader() {
 	if in.Masked {
 		k := uint32(h.maskKey[0]) | uint32(h.maskKey[1])<<8 | uint32(h.maskKey[2])<<16 | uint32(h.maskKey[3])<<24
 		vrt.Assert(k == in.MaskKey, "mask key bytes")
+	}
+	vrt.Cover("end")
+}
+
+// VerifC11WsWrite: BasicHttpSubSession.Write, plain and WebSocket, for a payload of len bytes.
+func VerifC11WsWrite() {
+	n := vrt.Param("len")
+	fc := &vkit.Conn{}
+	s := &BasicHttpSubSession{conn: fc}
+	s.IsWebSocket = vrt.Bool("ws")
+	b := vrt.Bytes("b", n)
+	s.Write(b)
+	all := fc.All()
+	if !s.IsWebSocket {
+		vrt.Assert(len(all) == n, "plain: same length")
+		for i := 0; i < n && i < len(all); i++ {
+			vrt.Assert(all[i] == b[i], "plain: same bytes")
+		}
+		vrt.Cover("end")
+		return
+	}
+	h := refParseWsHeader(all)
+	vrt.Assert(h.ok, "ws: frame header parses")
+	vrt.Assert(h.fin && !h.rsv1 && !h.rsv2 && !h.rsv3 && h.opcode == 2 && !h.masked, "ws: one complete unmasked binary frame")
+	vrt.Assert(h.length == uint64(n), "ws: declared length equals payload length")
+	vrt.Assert(len(all) == h.size+n, "ws: nothing but header and payload written")
+	for i := 0; i < n && h.size+i < len(all); i++ {
+		vrt.Assert(all[h.size+i] == b[i], "ws: payload bytes")
 	}
 	vrt.Cover("end")
 }
